@@ -733,3 +733,18 @@ fn edge_metric(c_a: &VertexSet, c_b: &VertexSet, edge_weight: EdgeWeightMethod) 
         EdgeWeightMethod::Cubic => n_1.pow(3) + n_2.pow(3) - n_m.pow(3),
     }
 }
+
+// verification-only hooks (see /verif); compiled only under the guard cfg
+#[cfg(oxfordcontrol_clarabel_rs_verif)]
+pub(crate) mod verif_hooks_cg {
+    use crate::algebra::CscMatrix;
+    pub(crate) fn kruskal(E: &mut CscMatrix<isize>, num_cliques: usize) {
+        super::kruskal(E, num_cliques)
+    }
+    pub(crate) fn max_elem(A: &CscMatrix<isize>) -> (usize, usize) {
+        super::max_elem(A)
+    }
+    pub(crate) fn find_neighbors(edges: &CscMatrix<isize>, c: usize) -> Vec<usize> {
+        super::find_neighbors(edges, c)
+    }
+}
